@@ -358,6 +358,18 @@ pub fn run(tier: &str) -> Result<Report, String> {
         vec!["%p% & EF a".into(), "!{x} in %d%: AX ({x} | %p%)".into()],
         vec!["3{x} in %dom_1%: @{x}: EG %p%".into(), "%p%".into(), "V{x} in %d%: @{x}: AX {x}".into()],
     ];
+    // one formula file per operator: the tool drives the evaluation itself (analysis module), so
+    // every operator has to go through it in isolation as well as in mixed files
+    let mut operator_lists: Vec<Vec<String>> = vec![];
+    for u in ["~", "EX", "AX", "EF", "AF", "EG", "AG"] {
+        operator_lists.push(vec![format!("{u} a"), format!("{u} ({u} b)")]);
+    }
+    for o in ["&", "|", "^", "=>", "<=>", "EU", "AU", "EW", "AW"] {
+        operator_lists.push(vec![format!("a {o} b"), format!("b {o} (a {o} b)")]);
+    }
+    for h in ["!{x}: AX {x}", "!{x}: AG EF {x}", "3{x}: @{x}: a", "V{x}: @{x}: (a | b)", "!{x}: 3{y}: (@{x}: EF {y})", "True", "False", "a"] {
+        operator_lists.push(vec![h.to_string()]);
+    }
     let prints = ["no-print", "summary", "with-progress", "exhaustive"];
     let mut cases: Vec<(Arc<Bound>, Case)> = vec![];
     for b in nets.iter().filter(|b| which.contains(&b.name.as_str())) {
@@ -383,6 +395,12 @@ pub fn run(tier: &str) -> Result<Report, String> {
                             cases.push((b.clone(), Case { fmt: fmt.into(), layout, print: print.into(), with_out, formulas: l.clone(), ctx: Some(ctx_labels.clone()), ctx_k_delta: 0 }));
                         }
                     }
+                }
+            }
+            if fmt == "aeon" {
+                for (li, l) in operator_lists.iter().enumerate() {
+                    let print = if li % 2 == 0 { "summary" } else { "exhaustive" };
+                    cases.push((b.clone(), Case { fmt: fmt.into(), layout: li % LAYOUTS, print: print.into(), with_out: li % 3 == 0, formulas: l.clone(), ctx: None, ctx_k_delta: 0 }));
                 }
             }
             // context archives written for a different number of spare variable sets
@@ -436,7 +454,7 @@ pub fn run(tier: &str) -> Result<Report, String> {
     rep.set("failure_configurations", json!(failures));
     rep.sample(json!({"network": "con2", "format": "sbml", "layout": 6, "print": "exhaustive", "-o": true, "formulae": plain_lists[1]}));
     rep.sample(json!({"formula_file_layout_6": formula_file(&plain_lists[2], 6)}));
-    rep.rule = format!("the hctl-model-checker binary built from the working tree is executed on {which:?} x model format (aeon, bnet, sbml where the format reproduces the network) x {LAYOUTS} formula-file layouts (comments, blank lines, surrounding blanks/tabs, CRLF, no final newline, mixed) x 4 print options x with/without -o x 3 plain + 2 extended formula lists (context archive with labels p, d, dom_1 written for the k the tool derives), plus context archives written for k-1, k+1, k+2 and 13 failure configurations. Compared: order and text of Formula blocks, printed result/colour/state counts vs exact counts of the library's sets, exhaustive state listing, archive entry list, formulae.txt, every archived BDD vs model_check_multiple_(extended_)formulae_dirty; failures must produce a message and no crash. distinct_nontrivial = executed configurations");
+    rep.rule = format!("the hctl-model-checker binary built from the working tree is executed on {which:?} x model format (aeon, bnet, sbml where the format reproduces the network) x {LAYOUTS} formula-file layouts (comments, blank lines, surrounding blanks/tabs, CRLF, no final newline, mixed) x 4 print options x with/without -o x 3 plain + 2 extended formula lists, plus 24 single-operator formula files (each unary / binary / hybrid operator and pattern in a file of its own) (context archive with labels p, d, dom_1 written for the k the tool derives), plus context archives written for k-1, k+1, k+2 and 13 failure configurations. Compared: order and text of Formula blocks, printed result/colour/state counts vs exact counts of the library's sets, exhaustive state listing, archive entry list, formulae.txt, every archived BDD vs model_check_multiple_(extended_)formulae_dirty; failures must produce a message and no crash. distinct_nontrivial = executed configurations");
     rep.assumptions.push("counts are compared with exact cardinalities computed from the point-wise read-back of the library's sets on valid colours".into());
     Ok(rep)
 }
